@@ -415,10 +415,6 @@ def run(tier, seed):
                 if c["kind"] == "htlc_success" and c["node"] == 1:
                     stats["success_confirmed"] += 1
     vlib.log("[deadlines] %s" % stats)
-    if not model_violation:
-        empty = [n for n, v in stats.items() if v == 0]
-        if empty:
-            raise vlib.ToolError("vacuity: never observed on the real nodes: %s" % empty)
 
     # ---- 3. trace validation (the oracle)
     total, fails = vlib.validate_trace(PID, "DeadlinesTrace", "DeadlinesTrace_gen.cfg", tpath, timeout=2400)
@@ -437,6 +433,10 @@ def run(tier, seed):
                 "how_to_replay": "harness/target/debug/deadlines --scripts <file with `script`> --out t.ndjson; "
                                  "tools/tv.sh DeadlinesTrace t.ndjson DeadlinesTrace_gen.cfg"}, key=key):
             nviol += 1
+    # vacuity guard (only meaningful when every run was accepted): each kind of outcome was observed
+    empty = [n for n, v in stats.items() if v == 0]
+    if empty and not fails and not model_violation:
+        raise vlib.ToolError("vacuity: never observed on the real nodes: %s" % empty)
     if model_violation and not nviol:
         # DESIGN 8: a design-level counterexample is not a violation of the code; it was replayed on real
         # nodes (run 1 of the trace) and every real run satisfied the property
